@@ -390,8 +390,8 @@ class Body:
         m = ARCSWAP_RE.match(d)
         if m:
             op = m.group(1)
-            if op in ("load", "load_full"):
-                return ("cellload", args[0], site)
+            if op in ("load", "load_full", "swap"):
+                return ("cellload", args[0], site)      # swap hands back what the cell held
             if op in ("store",):
                 return ("unit",)
             return ("call", site, d, args)
@@ -576,7 +576,10 @@ def classify_call(prog, body, bid, blk):
             closure = None
             if val is not None and val[0] == "agg" and val[1] == "closure":
                 closure = val[2]
-            eff = Effect("cell", site, s, op=op, cell=cell, value=val, closure=closure)
+            swapped = False
+            if op == "swap":
+                op, swapped = "store", True             # a swap is a store whose result is the previous content
+            eff = Effect("cell", site, s, op=op, cell=cell, value=val, closure=closure, swapped=swapped)
         elif d in ("std::sync::RwLock::<T>::write", "std::sync::RwLock::<T>::read", "std::sync::Mutex::<T>::lock"):
             eff = Effect("lock", site, s, op=d.split("::")[-1], cell=L(args[0]))
         elif d in PANIC_CALLEES:
